@@ -143,6 +143,10 @@ def run(check, repo: Repo) -> None:
             for c in ast.walk(n.test):
                 if isinstance(c, ast.Call) and call_name(c) == "len" and c.args and isinstance(c.args[0], ast.Name):
                     len_on.add(c.args[0].id)
+                if isinstance(c, ast.Name):      # n = len(arr); if n != ndim: raise
+                    for d_ in definitions(vn, c.id):
+                        if isinstance(d_, ast.Call) and call_name(d_) == "len" and d_.args and isinstance(d_.args[0], ast.Name):
+                            len_on.add(d_.args[0].id)
                 if isinstance(c, ast.Attribute) and c.attr in ("size", "shape") and isinstance(c.value, ast.Name):
                     len_on.add(c.value.id)
     params_vn = set(func_params(vn))
